@@ -169,3 +169,65 @@ Qed.
 Lemma collision_in_namespace_refused :
   cedar_roundtrip (map (fun ns => mkNs [s2str "NS"] (ns_commons ns) (ns_entities ns) (ns_actions ns)) collision_witness) = None.
 Proof. vm_compute. reflexivity. Qed.
+
+(* ------------------------------------------------------------------------------------------
+   Lifting to types.  `to_eoc` forgets the reference form (what a trip through the Cedar syntax does to the
+   references; primitives are kept here).  `refs_free` says that no candidate name of a must-be-entity
+   reference is a common type and no candidate of a must-be-common reference is an entity type. *)
+Fixpoint to_eoc (t : tyx) : tyx :=
+  match t with
+  | XPrim _ | XExt _ | XEoc _ => t
+  | XSet e => XSet (to_eoc e)
+  | XRecord attrs o =>
+      XRecord ((fix go (l : list (str * (tyx * bool))) : list (str * (tyx * bool)) :=
+                  match l with [] => [] | (k, (a, r)) :: l' => (k, (to_eoc a, r)) :: go l' end) attrs) o
+  | XEntity n => XEoc n
+  | XCommon n => XEoc n
+  end.
+
+Fixpoint refs_free (cdefs edefs : list name) (ns : name) (t : tyx) : bool :=
+  match t with
+  | XPrim _ | XExt _ | XEoc _ => true
+  | XSet e => refs_free cdefs edefs ns e
+  | XRecord attrs _ =>
+      (fix go (l : list (str * (tyx * bool))) : bool :=
+         match l with [] => true | (_, (a, _)) :: l' => refs_free cdefs edefs ns a && go l' end) attrs
+  | XEntity n => forallb (fun p => negb (mem_name p cdefs)) (possibilities ns n)
+  | XCommon n => forallb (fun p => negb (mem_name p edefs)) (possibilities ns n)
+  end.
+
+Lemma forallb_negb_false {A} (f : A -> bool) l :
+  forallb (fun p => negb (f p)) l = true -> forall p, In p l -> f p = false.
+Proof.
+  intros H p Hp. rewrite forallb_forall in H. specialize (H p Hp).
+  destruct (f p); [discriminate H | reflexivity].
+Qed.
+
+Lemma qual_ty_to_eoc cdefs edefs ns :
+  forall t, refs_free cdefs edefs ns t = true ->
+            qual_ty cdefs edefs ns (to_eoc t) = option_map to_eoc (qual_ty cdefs edefs ns t).
+Proof.
+  fix IH 1. intros t. destruct t as [p|n|e|attrs o|n|n|n]; cbn [to_eoc refs_free qual_ty]; intros H.
+  - reflexivity.
+  - reflexivity.
+  - rewrite (IH e H). destruct (qual_ty cdefs edefs ns e); reflexivity.
+  - match goal with |- option_map _ ?X = option_map _ (option_map _ ?Y) =>
+      assert (HX : X = option_map (fix go (l : list (str * (tyx * bool))) : list (str * (tyx * bool)) :=
+                                     match l with [] => [] | (k, (a, r)) :: l' => (k, (to_eoc a, r)) :: go l' end) Y)
+    end.
+    { induction attrs as [|[k [a r]] l IHl]; [reflexivity|].
+      simpl in H |- *.
+      apply Bool.andb_true_iff in H. destruct H as [Ha Hl].
+      rewrite (IH a Ha), (IHl Hl).
+      destruct (qual_ty cdefs edefs ns a); [|reflexivity]. simpl.
+      lazymatch goal with |- context [option_map _ (?G l)] => destruct (G l) end; reflexivity. }
+    rewrite HX.
+    lazymatch goal with |- context [option_map _ (option_map _ (?G attrs))] => destruct (G attrs) end; reflexivity.
+  - destruct (reference_form_insensitive cdefs edefs ns n) as [He _].
+    rewrite (He (forallb_negb_false _ _ H)).
+    destruct (resolve_name REntity cdefs edefs ns n); reflexivity.
+  - destruct (reference_form_insensitive cdefs edefs ns n) as [_ Hc].
+    rewrite (Hc (forallb_negb_false _ _ H)).
+    destruct (resolve_name RCommon cdefs edefs ns n); reflexivity.
+  - destruct (resolve_name RBoth cdefs edefs ns n); reflexivity.
+Qed.
